@@ -64,6 +64,35 @@ static int vh_timer_cb(const struct event_base *base, const struct event *ev, vo
     return 0;
 }
 
+/* Fires a pending request timer that belongs to NO live request (the audit's "orphan"), as libevent eventually would.
+ * On a correct tree there never is one, so this event is never enabled; on a broken one the explorer gets to see what the
+ * stale timer does (a verdict for a client that is gone, a use-after-free under ASan).  Returns 0 if there is none. */
+static int vh_orphan_cb(const struct event_base *base, const struct event *ev, void *arg)
+{
+    const struct event **out = arg;
+    (void)base;
+    if (event_get_callback(ev) == iauth_timeout && !*out) {
+        struct set_node *n;
+        int found = 0;
+        for (n = set_first(iauth_reqs); n; n = set_next(n))
+            if (set_node_data(n) == event_get_callback_arg(ev) && ((struct iauth_request *)set_node_data(n))->timeout == ev)
+                found = 1;
+        if (!found) *out = ev;
+    }
+    return 0;
+}
+
+int vh_core_fire_orphan(void)
+{
+    const struct event *ev = NULL;
+    event_base_foreach_event(ev_base, vh_orphan_cb, &ev);
+    if (!ev)
+        return 0;
+    event_del((struct event *)ev);
+    iauth_timeout(-1, EV_TIMEOUT, event_get_callback_arg(ev));
+    return 1;
+}
+
 /* structural audit of the request table (order, links, count) */
 static const char *vh_table_audit(void)
 {
